@@ -59,7 +59,11 @@ def gen_leaf(rng, fam):
         if k == 'user':
             return {'op': 'user', 'fn': ch(('truthy', 'boom', 'always', 'never', 'returns_obj'))}
         return {'op': k}
-    k = ch(('shape', 'broadcastable', 'shape', 'user'))
+    k = ch(('shape', 'broadcastable', 'shape', 'user', 'positive', 'nonneg', 'val_range'))
+    if k in ('positive', 'nonneg'):
+        return {'op': k}
+    if k == 'val_range':
+        return {'op': 'val_range', 'min': ch((None, 0, 1)), 'max': ch((2.5, 10))}
     if k == 'user':
         return {'op': 'user', 'fn': ch(('always', 'never', 'boom'))}
     return {'op': k, 'shape': ch(((2, 2), (2,), (3,), (1, 2), (2, 1), (), (0,), (2, 3))), 'as_list': rng.random() < 0.3}
@@ -151,7 +155,7 @@ def run(ctx):
             verdict = 'accept'
             for s in specs:
                 try:
-                    ok = C.pred(s)(base.val)
+                    ok = bool(C.pred(s)(base.val))
                 except Exception as e:
                     verdict, wit['predicate_raised'] = 'raised', f"{type(e).__name__}: {short(str(e), 80)}"
                     break
